@@ -1,0 +1,59 @@
+//go:build verif
+
+// Contracts for package client, read by the verification-condition generator
+// in /verif (govc). Comments only; compiled only with the build tag "verif".
+
+package client
+
+// ---------------------------------------------------------------------------
+// Client state (assumed well-formed; established by the constructors and the
+// opening protocol, not re-proved here): registered channels have a machine
+// whose current state is a well-formed state.
+// ---------------------------------------------------------------------------
+
+// The client library opens two-party channels only.
+//@ pred chanWF(ch *Channel) = ch != nil && ch.machine.StateMachine != nil && ch.machine.StateMachine.machine != nil &&
+//@   stateDecoded(ch.machine.StateMachine.machine.currentTX.State) && len(ch.machine.StateMachine.machine.currentTX.State.Balances[0]) == 2
+
+//@ func (*chanRegistry).Channel
+//@   trusted
+//@   ensures result1 ==> chanWF(result0)
+//@   ensures !result1 ==> result0 == nil
+
+// ---------------------------------------------------------------------------
+// Proposal validation (C08, C12)
+// ---------------------------------------------------------------------------
+
+//@ pred baseDecoded(b *BaseChannelProposal) = b != nil && allocDecoded(b.InitBals) && b.App != nil && b.InitData != nil && nonNilBalances(b.FundingAgreement)
+
+// transformBalances maps the balances of a (virtual) channel into the participant positions of a parent channel.
+//@ func transformBalances
+//@   requires nonNilBalances(b) && numParts >= 0 && numParts <= 65536
+//@   requires forall a int :: 0 <= a && a < len(b) ==> len(indexMap) <= len(b[a])
+//@   requires forall p int :: 0 <= p && p < len(indexMap) ==> indexMap[p] < numParts
+//@   ensures len(_b) == len(b) && nonNilBalances(_b) && forall a int :: 0 <= a && a < len(b) ==> len(_b[a]) == numParts
+//@   loop 1
+//@     modifies _b[*]
+//@     invariant len(_b) == len(b) && fresh(arr(_b)) && off(_b) == 0
+//@     invariant forall k int :: 0 <= k && k < $i ==> len(_b[k]) == numParts && nonNilBals(_b[k])
+//@   loop 2
+//@     modifies _b[a][*]
+//@     invariant 0 <= a && a < len(_b) && len(_b[a]) == numParts && fresh(arr(_b[a])) && off(_b[a]) == 0 && forall l int :: 0 <= l && l < $i ==> _b[a][l] != nil
+//@   loop 3
+//@     modifies _b[a][*]
+//@     invariant 0 <= a && a < len(_b) && len(_b[a]) == numParts && fresh(arr(_b[a])) && off(_b[a]) == 0 && nonNilBals(_b[a])
+
+//@ func (*Client).proposalParent
+//@   requires c != nil && c.channels != nil && prop != nil && payload(prop) != 0 && partIdx <= 1
+//@   ensures err == nil && parent != nil ==> chanWF(parent)
+
+//@ func (*Client).validSubChannelProposal
+//@   requires c != nil && c.channels != nil && proposal != nil && baseDecoded(&proposal.BaseChannelProposal)
+//@   ensures result == nil ==> true
+
+//@ func (*Client).validVirtualChannelProposal
+//@   requires c != nil && c.channels != nil && prop != nil && baseDecoded(&prop.BaseChannelProposal) && ourIdx <= 1 && len(prop.InitBals.Balances[0]) == 2
+//@   ensures result == nil ==> len(prop.Parents) == 2 && len(prop.IndexMaps) == 2 && balancesEq(prop.InitBals.Balances, prop.FundingAgreement) &&
+//@           len(prop.IndexMaps[ourIdx]) == 2 && (forall k int :: 0 <= k && k < 2 ==> prop.IndexMaps[ourIdx][k] < 2)
+//@   loop 1
+//@     invariant forall k int :: 0 <= k && k < $i ==> indexMap[k] < numPeers
